@@ -77,8 +77,13 @@ fn gen_run(rng: &mut Rng) -> RunSpec {
     let n_docs = 1 + rng.weighted(&[3, 4, 3, 1, 1]);
     // a quarter of the runs contain nothing that fails (exit status 0)
     let calm = rng.chance(1, 4);
-    let cli_pre = rng.chance(1, 4);
-    let cli_app = rng.chance(1, 4);
+    // "suite" runs: documents without test cases of their own (front-matter / prose only) whose
+    // whole content comes from prepend / append
+    let suite = rng.chance(1, 6);
+    let cli_pre = rng.chance(if suite { 2 } else { 1 }, 4);
+    let cli_app = rng.chance(if suite { 2 } else { 1 }, 4);
+    // one document whose budget is used up by a `wait` between two test cases (sleeps 2 s)
+    let wait_doc: Option<usize> = if !calm && rng.chance(1, 12) { Some(rng.below(n_docs)) } else { None };
     let uniform: Option<Format> = if cli_pre || cli_app {
         Some(if rng.chance(2, 3) { Format::Markdown } else { Format::Cram })
     } else {
@@ -109,20 +114,36 @@ fn gen_run(rng: &mut Rng) -> RunSpec {
     let in_dir = if n_docs >= 2 && rng.chance(1, 3) { 1 + rng.below(n_docs.min(3)) } else { 0 };
     let mut docs = vec![];
     for d in 0..n_docs {
-        let fmt = uniform.unwrap_or(if rng.chance(3, 5) { Format::Markdown } else { Format::Cram });
+        let waiting = wait_doc == Some(d) && uniform != Some(Format::Cram);
+        let fmt = if waiting { Format::Markdown } else { uniform.unwrap_or(if rng.chance(3, 5) { Format::Markdown } else { Format::Cram }) };
         let dir = if d >= n_docs - in_dir { "sub/" } else { "" };
         let name = format!("{dir}d{d}.{}", ext(fmt));
-        let n = 1 + rng.weighted(&[2, 3, 3, 2]);
-        let tests: Vec<TestSpec> = (0..n).map(|j| gen_test(rng, format!("d{d}t{j}"), fmt, true, calm)).collect();
+        let zero = suite && !waiting && rng.bool();
+        let n = if zero { 0 } else { 1 + rng.weighted(&[2, 3, 3, 2]) };
+        let mut tests: Vec<TestSpec> = (0..n).map(|j| gen_test(rng, format!("d{d}t{j}"), fmt, !waiting, calm)).collect();
+        if waiting {
+            // ... plain test cases, the waiting one, at least one plain test case after it
+            let at = rng.below(n);
+            let mut w = TestSpec::pass(&format!("d{d}w"));
+            w.wait_ms = Some(2000);
+            tests.insert(at, w);
+            if at + 1 == tests.len() {
+                tests.push(TestSpec::pass(&format!("d{d}z")));
+            }
+        }
         let mut doc = DocSpec::new(&name, fmt, tests);
+        if waiting {
+            doc.total_timeout_ms = Some(1000);
+        }
         if fmt == Format::Markdown {
-            if rng.chance(1, 4) {
+            let force = zero && !cli_pre && !cli_app;
+            if rng.chance(if zero { 2 } else { 1 }, 4) || force {
                 for _ in 0..1 + rng.below(2) {
                     let n = mk_aux(rng, "p", Format::Markdown, &mut aux);
                     doc.prepend.push(n);
                 }
             }
-            if rng.chance(1, 4) {
+            if rng.chance(if zero { 2 } else { 1 }, 4) {
                 for _ in 0..1 + rng.below(2) {
                     let n = mk_aux(rng, "a", Format::Markdown, &mut aux);
                     doc.append.push(n);
@@ -141,7 +162,7 @@ fn gen_run(rng: &mut Rng) -> RunSpec {
             2 if md => docs[d].defect = Defect::BadFrontMatter,
             3 if md => docs[d].defect = Defect::MissingShell,
             _ => {
-                if !md {
+                if !md && !docs[d].tests.is_empty() {
                     let j = rng.below(docs[d].tests.len());
                     let t = &mut docs[d].tests[j];
                     *t = TestSpec::pass(&t.id.clone());
@@ -263,7 +284,7 @@ impl Monitor for C20 {
     fn plan(&self, tier: Tier) -> Plan {
         let mut p = Plan::new(
             tier.pick(300, 6000),
-            "runs of 1-5 generated documents (Markdown/Cram, files and a directory, front-matter and CLI prepend/append) whose test cases pass / fail on output / fail on code / skip / time out (300 ms vs sleep 8) / detach, plus runs scrut cannot do (missing, non-UTF-8, unparsable document or include, missing shell, Cram script ended by exit); judged on marker log, -r json, exit status, summary line; non-trivial = at least two test cases executed and (more than one document, or includes, or a behaviour other than pass); distinct = hash of (format, document end, role/detached/result classes per test case) over the run",
+            "runs of 1-5 generated documents (Markdown/Cram, files and a directory, front-matter and CLI prepend/append) whose test cases pass / fail on output / fail on code / skip / time out (300 ms vs sleep 8) / detach / wait 2 s under a 1 s document limit, documents without own test cases (front-matter or prose only) that consist of includes, plus runs scrut cannot do (missing, non-UTF-8, unparsable document or include, missing shell, Cram script ended by exit); judged on marker log, -r json, exit status, summary line; non-trivial = at least two test cases executed and (more than one document, or includes, or a behaviour other than pass); distinct = hash of (format, document end, role/detached/result classes per test case) over the run",
         );
         p.chunk = tier.pick(2, 4);
         p.case_timeout_s = 120;
@@ -276,6 +297,8 @@ impl Monitor for C20 {
             ("exit:1".into(), tier.pick(4, 60)),
             ("includes".into(), tier.pick(40, 600)),
             ("markers-read".into(), tier.pick(60, 1200)),
+            ("zero-own-tests:with-includes".into(), tier.pick(8, 150)),
+            ("wait:budget-exhausted".into(), tier.pick(1, 25)),
         ];
         p.assumptions = vec![
             "not claimed: execution of test cases after a skipping or timed-out one, marker of the timed-out test case, anything but the exit status when the run is aborted, order of documents inside a directory argument, order of results in the report".into(),
@@ -342,6 +365,14 @@ impl Monitor for C20 {
         }
         if let Some(w) = model.aborted {
             buckets.push(format!("abort:{w}"));
+        }
+        for (spec, d) in case.run.docs.iter().zip(model.docs.iter()) {
+            if spec.tests.is_empty() && spec.defect == Defect::None {
+                buckets.push(if d.seq.is_empty() { "zero-own-tests:nothing-included" } else { "zero-own-tests:with-includes" }.into());
+            }
+            if matches!(d.end, DocEnd::TimedOut { or_next: true, .. }) {
+                buckets.push("wait:budget-exhausted".into());
+            }
         }
         let mut findings = j.findings;
         let timing = model.docs.iter().any(|d| matches!(d.end, DocEnd::TimedOut { .. }) || d.seq.iter().any(|t| t.detached));
